@@ -515,7 +515,7 @@ fn wiring_ok<T: Settable<f32, Er>>(w: &PIDWrapper<'_, T, Er>) -> bool {
         && w.command.borrow().get_settable_data_ref().following.is_none()
 }
 
-//@ob fn="PIDWrapper::new" at=src/devices/wrappers.rs:98 tier=thorough cbmc="--max-field-sensitivity-array-size 1024" clause="wiring W after the real new, all arguments symbolic: shared clock holds initial_time; state and command ConstantGetters hold the initial values and read that same clock (same allocation); the CommandPID follows the command getter and the inner motor follows the CommandPID (same allocations, through to_dyn!); the getters follow nothing; the PID is fresh (no output), the terminal is fresh, the motor has not been set or updated.  NEEDS the CBMC flag in cbmc= (heap objects > 64 bytes are otherwise not field-sensitive and symbolic execution does not terminate)"
+//@ob fn="PIDWrapper::new" at=src/devices/wrappers.rs:98 cbmc="--max-field-sensitivity-array-size 1024" clause="wiring W after the real new, all arguments symbolic: shared clock holds initial_time; state and command ConstantGetters hold the initial values and read that same clock (same allocation); the CommandPID follows the command getter and the inner motor follows the CommandPID (same allocations, through to_dyn!); the getters follow nothing; the PID is fresh (no output), the terminal is fresh, the motor has not been set or updated.  NEEDS the CBMC flag in cbmc= (heap objects > 64 bytes are otherwise not field-sensitive and symbolic execution does not terminate)"
 #[kani::proof]
 #[kani::unwind(3)]
 fn c20_pid_real_new_wiring() {
